@@ -401,12 +401,12 @@ theorem propagation_complete_step (s s' : KState) (k : Key) (hk : k.kind = .step
   rw [← hdeps]
   exact downstream_invalidated s' k hs' (step_base s' k hk hs' hk_ns)
 
-/-- **Environment rescan** (`startup.rescan_env_vars`): every attached step whose recorded value
-of a variable differs from the current environment is not SUCCEEDED afterwards, and everything
-downstream of it is invalidated. -/
+/-- **Environment rescan** (`startup.rescan_env_vars`): every step, attached or (since the repair
+d05c184) detached, whose recorded value of a variable differs from the current environment is not
+SUCCEEDED afterwards, and everything downstream of it is invalidated. -/
 theorem rescanEnv_propagation_complete (s s' : KState) (cfg : KConfig) (hs : Sound s)
     (h : s.rescanEnvVars cfg = .ok s') :
-    Sound s' ∧ ∀ n ∈ s.nodes, n.key.kind = .step → n.detached = false →
+    Sound s' ∧ ∀ n ∈ s.nodes, n.key.kind = .step →
       (∃ e ∈ n.envs, envValue cfg e.1 ≠ e.2.1) →
       s'.sstateOf n.key ≠ some .succeeded ∧ ∀ x, Downstream s.deps n.key x → Invalidated s' x := by
   unfold KState.rescanEnvVars at h
@@ -416,13 +416,13 @@ theorem rescanEnv_propagation_complete (s s' : KState) (cfg : KConfig) (hs : Sou
     foldlM_keeps (fun b => b.deps = s.deps) _ _
       (fun b a b' _ hb hr => (markStepPending_deps b.fuel b b' a.key hr).trans hb) s s' rfl h
   refine ⟨hs', ?_⟩
-  intro n hn hk hdet ⟨e, he, hne⟩
+  intro n hn hk ⟨e, he, hne⟩
   have hmem : n ∈ s.nodes.filter fun n =>
-      decide (n.key.kind = .step ∧ (!n.detached) = true ∧ (n.envs.any fun e => decide (envValue cfg e.1 ≠ e.2.1)) = true) := by
+      decide (n.key.kind = .step ∧ (n.envs.any fun e => decide (envValue cfg e.1 ≠ e.2.1)) = true) := by
     rw [List.mem_filter]
     refine ⟨hn, ?_⟩
-    simp only [decide_eq_true_eq, Bool.not_eq_true', List.any_eq_true]
-    exact ⟨hk, hdet, e, he, hne⟩
+    simp only [decide_eq_true_eq, List.any_eq_true]
+    exact ⟨hk, e, he, hne⟩
   have hnd : NotDone s' n.key :=
     foldlM_each (fun (m : Node) (b : KState) => NotDone b m.key) _ _
       (fun b a b' hr => markStepPending_notDone b.fuel b b' a.key hr)
